@@ -12,6 +12,17 @@ extern "C"
     int __real_pthread_mutex_lock(pthread_mutex_t *m);
     int __real_pthread_mutex_unlock(pthread_mutex_t *m);
     int __real_pthread_mutex_trylock(pthread_mutex_t *m);
+    pthread_t __real_pthread_self(void);
+    extern int stsim_fiber_identity; // 0 outside a run and on the main context
+
+    // Every fiber is a thread of its own as far as the library can tell: code that remembers "the thread that did X"
+    // (std::this_thread::get_id() is pthread_self() in header-only code) sees one identity per fiber.
+    pthread_t __wrap_pthread_self(void)
+    {
+        pthread_t real = __real_pthread_self();
+        if (stsim_fiber_identity == 0) return real;
+        return (pthread_t)((unsigned long)real + 0x100000UL * (unsigned long)stsim_fiber_identity);
+    }
 
     int __wrap_pthread_mutex_lock(pthread_mutex_t *m)
     {
